@@ -26,6 +26,34 @@ func only(r Rule, min int, keep func(o report.Obligation) bool) Rule {
 	}}
 }
 
+// runWithRoles runs a rule and, when a function name the rule recognises calls
+// by answers to nothing in the module any more (a renamed helper), replaces
+// the verdict by "cannot decide": obligations computed with a missing role
+// would be about something else than the rule says.
+func runWithRoles(r Rule, p *load.Program) *report.RuleResult {
+	rules.BeginRoles()
+	res := r.Run(p)
+	gone := rules.CheckRoles(p)
+	for _, g := range rules.MissingAnchors(p, r.ID) {
+		dup := false
+		for _, h := range gone {
+			if h == g || strings.HasSuffix(h, "."+g) {
+				dup = true
+			}
+		}
+		if !dup {
+			gone = append(gone, g)
+		}
+	}
+	if len(gone) > 0 {
+		res.Obligations = nil
+		res.MinInstances = 0
+		res.Add(report.Obligation{Key: "anchor|roles", Func: "-", Pos: "-", What: "anchor identifiers " + strings.Join(gone, ", "), Status: report.Undecided,
+			Detail: "the rule recognises constructs of the module by these names (functions, methods, fields, constants) and the analysed tree defines none of that name any more (renamed, moved or removed): the rule cannot decide its clause here and says so instead of reporting a verdict about something else"})
+	}
+	return res
+}
+
 func whatHas(subs ...string) func(o report.Obligation) bool {
 	return func(o report.Obligation) bool {
 		for _, s := range subs {
@@ -162,6 +190,7 @@ var (
 	rSymQuote = Rule{"OWN-SYMQUOTE", rules.OwnSymQuote}
 	rAdjMax   = Rule{"TAB-ADJUSTMAX", rules.TabAdjustMax}
 	rLenCount = Rule{"TAB-LENCOUNT", rules.TabLenCount}
+	rNextVis  = Rule{"TAB-NEXTVISIT", rules.TabNextVisit}
 	rFixedLST = Rule{"OWN-FIXEDLST", rules.OwnFixedLST}
 	rReflSet  = Rule{"TAB-REFLECTSET", rules.TabReflectSet}
 	rBounds   = Rule{"TAB-BOUNDS", rules.TabBounds}
@@ -380,17 +409,19 @@ var registry = map[string]*Property{
 		},
 	},
 	"C20": {
-		Decided:    "In cmd/ion-go: a possibly-nil accessor result (typed null) is dereferenced only where known non-nil and is not passed to a callee that dereferences it unguarded (NIL-ACC, NIL-ARG scoped to the command); the copy loop never extracts 64 bits from a big.Int without IsInt64/IsUint64 and never narrows a number out of range (NUM-BIG, NUM-NARROW scoped to the command); it never hands a token's text to a '$n'-interpreting Writer method (OWN-TEXTAUTH, command obligations); every Writer value method is called only under the reader Type() it writes, every accessor only under the type it reads, every Ion type has a writing arm and typed nulls go to WriteNullType on the IsNull() edge (TAB-COPYLOOP); every map field the command's writers assign into is initialised where the struct is built (NIL-MAP). Under each IntSize() case of the copy loop the accessor reached is wide enough (TAB-INTSIZE); output files are opened with O_TRUNC, O_APPEND or O_EXCL (TAB-OPENFLAGS). SymbolToken.Text is dereferenced in the command only under a nil test of the same path (NIL-FIELD, cmd scope).",
+		Decided:    "In cmd/ion-go: a possibly-nil accessor result (typed null) is dereferenced only where known non-nil and is not passed to a callee that dereferences it unguarded (NIL-ACC, NIL-ARG scoped to the command); the copy loop never extracts 64 bits from a big.Int without IsInt64/IsUint64 and never narrows a number out of range (NUM-BIG, NUM-NARROW scoped to the command); it never hands a token's text to a '$n'-interpreting Writer method (OWN-TEXTAUTH, command obligations); every Writer value method is called only under the reader Type() it writes, every accessor only under the type it reads, every Ion type has a writing arm and typed nulls go to WriteNullType on the IsNull() edge (TAB-COPYLOOP); every map field the command's writers assign into is initialised where the struct is built (NIL-MAP). Under each IntSize() case of the copy loop the accessor reached is wide enough (TAB-INTSIZE); output files are opened with O_TRUNC, O_APPEND or O_EXCL (TAB-OPENFLAGS). SymbolToken.Text is dereferenced in the command only under a nil test of the same path (NIL-FIELD, cmd scope). Every loop of the command that advances a Reader asks for the value's Type on every path round the loop, so no value is skipped unvalidated (TAB-NEXTVISIT).",
 		Necessary:  "The copy loop reads every scalar through the nil-returning accessors; an unguarded dereference is a panic on null.int and friends (part of F22, fixed).",
 		NotDecided: "output equivalence, event stream well-formedness (which text helper renders which type), reporting of write failures (11 write errors are assigned to a shadowed err and lost), the panic(err) calls in stringify/symbolify/clobify",
-		Technique:  "SSA must-dataflow of nil facts with inferred callee preconditions; enum value-set dataflow of the reader Type() at every Reader accessor and Writer method call of the copy loop; branch-fact dominance for big.Int extraction; value flow for OWN-TEXTAUTH" + "; enum value-set dataflow of IntSize(); constant flag check of os.OpenFile" + "; branch-fact dataflow for nil-if-unknown fields",
+		Technique:  "SSA must-dataflow of nil facts with inferred callee preconditions; enum value-set dataflow of the reader Type() at every Reader accessor and Writer method call of the copy loop; branch-fact dominance for big.Int extraction; value flow for OWN-TEXTAUTH" + "; enum value-set dataflow of IntSize(); constant flag check of os.OpenFile" + "; branch-fact dataflow for nil-if-unknown fields" + "; must-pass-through of Type() between two Next() calls",
 		DesignRef:  "DESIGN.md §3.2, §4 C20",
-		Rules:      []Rule{{"NIL-ACC", rules.NilAcc(rules.ScopeCmd, 1)}, {"NIL-ARG", rules.NilArg(rules.ScopeCmd, 1)}, {"NUM-BIG", rules.NumBig(rules.ScopeCmd, 0)}, {"NUM-NARROW", rules.NumNarrow(rules.ScopeCmd, nil, 0)}, only(rTextAuth, 0, posHas("cmd/")), rCopyLoop, {"NIL-MAP", rules.NilMap(rules.ScopeCmd, 1)}, rIntSize, rOpenFl, {"NIL-FIELD", rules.NilField(rules.ScopeCmd, 0)}},
+		Rules:      []Rule{{"NIL-ACC", rules.NilAcc(rules.ScopeCmd, 1)}, {"NIL-ARG", rules.NilArg(rules.ScopeCmd, 1)}, {"NUM-BIG", rules.NumBig(rules.ScopeCmd, 0)}, {"NUM-NARROW", rules.NumNarrow(rules.ScopeCmd, nil, 0)}, only(rTextAuth, 0, posHas("cmd/")), rCopyLoop, {"NIL-MAP", rules.NilMap(rules.ScopeCmd, 1)}, rIntSize, rOpenFl, {"NIL-FIELD", rules.NilField(rules.ScopeCmd, 0)}, rNextVis},
 	},
 }
 
 // devRules: every rule by name, for `ionlint -dev RULE`.
 var devRules = map[string]Rule{
+	"TAB-LSTFIELDS":   rLstFields,
+	"ORD-LSTHIDE":     rOrdLstHide,
 	"TAB-KEYWORD":     rKeyword,
 	"ORD-SORTMAP":     rOrdSortMap,
 	"NUM-FLAGOR":      rFlagOr,
@@ -418,6 +449,7 @@ var devRules = map[string]Rule{
 	"OWN-SYMQUOTE":    rSymQuote,
 	"TAB-ADJUSTMAX":   rAdjMax,
 	"TAB-LENCOUNT":    rLenCount,
+	"TAB-NEXTVISIT":   rNextVis,
 	"NUM-NARROW-TU":   {"NUM-NARROW", rules.NumNarrow(rules.Scope{Name: "textutils.go", Pkgs: []string{"ion"}, Files: []string{"textutils.go"}}, nil, 0)},
 	"NUM-NARROW":      {"NUM-NARROW", rules.NumNarrow(rules.ScopeNum, rules.NarrowResiduals, 0)},
 	"NUM-SHIFT":       {"NUM-SHIFT", rules.NumShift(rules.ScopeNum, rules.ShiftResiduals, 0)},
